@@ -82,6 +82,12 @@ def check(ctx):
         so = [(i, e) for i, e in enumerate(ev) if e[0] == "set_owner"]
         ctx.require(R1, len(so) == 1 and so[0][0] > i_w >= 0 and ft in " ".join(so[0][1][1]), "%s:%s" % (b.file, b.line),
                     "%s file (%s): set_owner(path, %s) after the write" % (ft, "rewrite" if exists else "creation", ft), [WF, "owner-call", ft, "exists" if exists else "new"])
+        # ... and before the post hooks run: a failing file-post-* hook ends write_file, the owner must already be in place by then (and
+        # the hooks are told about a file that has its final owner)
+        hooks_after_write = [i for i, e in enumerate(ev) if e[0] == "hook" and i > i_w >= 0]
+        if so and hooks_after_write:
+            ctx.require(R1, so[0][0] < min(hooks_after_write), "%s:%s" % (b.file, b.line), "%s file (%s): the owner is set before the post-%s hooks run" % (ft, "rewrite" if exists else "creation", "edit" if exists else "create"),
+                        [WF, "owner-after-post-hook", ft, "exists" if exists else "new"])
     for cname, exp in (("acmed::DEFAULT_CERT_FILE_MODE", 0o644), ("acmed::DEFAULT_PK_FILE_MODE", 0o600), ("acmed::DEFAULT_ACCOUNT_FILE_MODE", 0o600)):
         v = prog.const(cname).get("int")
         ctx.require(R1, v == exp, "acmed/src/main.rs", "%s = %s (expected %s)" % (cname.rsplit("::", 1)[1], oct(v) if v is not None else v, oct(exp)), ["const", cname.rsplit("::", 1)[1]])
